@@ -96,9 +96,10 @@ def facts_dir(mode="lib"):
             fh.write("%.1f\n" % (time.time() - t0))
         os.rename(tmp, d)
         # keep the cache small: drop every other set of the same mode
-        for old in glob.glob(os.path.join(CACHE, "facts-%s-*" % mode)):
-            if old != d:
-                shutil.rmtree(old, ignore_errors=True)
+        olds = sorted((o for o in glob.glob(os.path.join(CACHE, "facts-%s-*" % mode)) if o != d and ".tmp" not in o),
+                      key=os.path.getmtime, reverse=True)
+        for old in olds[int(os.environ.get("VERIF_FACTS_KEEP", "3")):]:
+            shutil.rmtree(old, ignore_errors=True)
         return d
     finally:
         fcntl.flock(lock, fcntl.LOCK_UN)
